@@ -45,6 +45,9 @@ pub enum AOp {
     SetFocus(u8),
     ResetFired,
     Clear,
+    /// the client throws the agenda away and constructs a new one (the monotonic clock moves by this many ns
+    /// first); activations created and held back earlier are older than the agenda they are then added to
+    NewAgenda(u32),
 }
 
 #[derive(Clone, Copy, Debug, Serialize, Deserialize, PartialEq)]
@@ -189,6 +192,19 @@ fn run_a(ops: &[AOp], obs: &mut Obs) -> Result<(), Violation> {
                 let all = [S::Salience, S::LEX, S::MEA, S::Depth, S::Breadth, S::Simplicity, S::Complexity, S::Random];
                 ag.set_strategy(all[*n as usize % all.len()]);
                 obs.count("probe.conflict_resolution_strategy_set");
+            }
+            AOp::NewAgenda(ns) => {
+                clock::advance_mono_ns(*ns as u64);
+                ag = AdvancedAgenda::new();
+                pending.clear();
+                fired_rules.clear();
+                fired_groups.clear();
+                locked.clear();
+                focus = "MAIN".to_string();
+                stack.clear();
+                if !held.is_empty() {
+                    obs.count("probe.agenda_constructed_after_activations_were_created");
+                }
             }
             AOp::Clear => {
                 ag.clear();
@@ -690,6 +706,7 @@ impl World for AgendaWorld {
                 "probe.iteration_bound_reached",
                 "probe.activation_created_and_held_back",
                 "probe.added_in_another_order_than_created",
+                "probe.agenda_constructed_after_activations_were_created",
                 "probe.history_of_more_than_50_operations",
                 "probe.conflict_resolution_strategy_set",
             ],
@@ -783,7 +800,13 @@ impl World for AgendaWorld {
                     1 => AOp::Next { mark: !rng.chance(1, 6) },
                     2 => AOp::SetFocus(rng.below(groups as u64) as u8),
                     3 => AOp::ResetFired,
-                    _ => AOp::Clear,
+                    _ => {
+                        if split && rng.chance(1, 2) {
+                            AOp::NewAgenda(*rng.pick(&[0u32, 1, 500, 1_000_000]))
+                        } else {
+                            AOp::Clear
+                        }
+                    }
                 });
             }
             if split {
